@@ -287,3 +287,57 @@ def _is_iterator_exhausted_edge(f, lp, x, s_):
     if not src or src[2] != "call" or not (callee_name(src[3]) or "").endswith("::next"):
         return False
     return any(v == 0 and tb == s_ for v, tb in t["ts"])
+
+
+def rule_kc_output(prog):
+    """R-KC-OUTPUT (C14): the override outputs recorded for a physical key are those of the key that is *output*.
+
+    add_kc_output(slot, out, ..) records under the physical key `slot` that `out` can be down at the OS because of it,
+    plus the outputs of every override whose input is `out`. Both parameters are OsCodes; looking the overrides up with
+    `slot` type-checks and is right whenever a key is mapped to itself, but for a remapped key the override output that
+    is actually down is missing from the table and OS repeats for it are never forwarded."""
+    from kq.core import Resolver
+    res = RuleResult("R-KC-OUTPUT", "add_kc_output looks overrides up for the key it records as output", floor=1)
+    f = prog.fn_opt("kanata_parser::cfg::key_outputs::add_kc_output")
+    if f is None:
+        res.viol("anchor", "parser/src/cfg/key_outputs.rs", "add_kc_output not found")
+        return res
+    res.fn(f)
+    R = Resolver(f)
+
+    def param_of(op):
+        r = R.root(op)
+        if r[0] == "param":
+            return r[1]
+        # &osc / contains(&osc): a reference to the parameter
+        if r[0] == "place" and isinstance(r[1], dict) and 1 <= r[1].get("l", 0) <= f.nargs:
+            return r[1]["l"]
+        return None
+    pushed, looked, slot = set(), [], None
+    for bi, t in f.calls():
+        short = (callee_name(t) or "").split("::")[-1]
+        if short == "push" and len(t["args"]) > 1:
+            p = param_of(t["args"][1])
+            if p is not None:
+                pushed.add(p)
+        elif short == "entry" and len(t["args"]) > 1:
+            slot = param_of(t["args"][1])
+        elif short == "output_non_mods_for_input_non_mod" and len(t["args"]) > 1:
+            looked.append((bi, t, param_of(t["args"][1])))
+    if len(pushed) != 1 or not looked or slot is None:
+        res.viol("anchor/shape", f.loc, "add_kc_output: the parameter pushed as output (%s), the slot (%s) or the override lookup (%d) were not "
+                                        "recognised" % (sorted(pushed), slot, len(looked)))
+        return res
+    out = next(iter(pushed))
+    for bi, t, p in looked:
+        ok = p == out
+        res.inst("override-lookup-key", where="%s:%s" % (f.file, t.get("ln")), looked_up=f.local_name(p) if p else None,
+                 recorded_output=f.local_name(out), slot=f.local_name(slot), ok=ok)
+        res.oblige(ok)
+        if not ok:
+            res.viol("override-lookup-key", "%s:%s" % (f.file, t.get("ln")),
+                     "add_kc_output looks the override outputs up for `%s`, but the key it records as output of the slot is `%s`: for a "
+                     "physical key that is remapped (a -> b) with an override on the output key ((lsft b) -> c), c is what is down at "
+                     "the OS while the override is active, and it is missing from the key-output table: the OS repeat of the held key "
+                     "is not forwarded" % (f.local_name(p) if p else "?", f.local_name(out)))
+    return res
